@@ -8,17 +8,17 @@ import IceProofs.Sys2C20Sched
 namespace IceProofs.C20S
 open IceModel.AgentCore IceModel.Sys2 IceProofs.Sys2Run IceProofs.Agent IceProofs.Sys2C05
 
-/-- B executes an event that is not an ordinary nomination request; a value it accepts was issued by A and travelled
-from the issuing pair (`hacc`: read off the datagram by the caller). -/
+/-- B executes an event; a value it accepts was issued by A and travelled from the issuing pair (`hacc`: read off the
+datagram by the caller). -/
 theorem qinv_stepB {nat : List (Nat × Nat)} {h : Hist} {s : Sys} (q : QInv nat h s) (ev : Ev) (hk : keeps ev = true)
-    (hpost : PostB (step s.b ev).1) (hplain : plainNomReq ev = false)
+    (hpost : PostB (step s.b ev).1)
     (hacc : ∀ v la src, acceptAt s.b ev = some (v, la, src) →
       ∃ la' ra', (v, la', ra') ∈ h.issued ∧ la = unmappedL nat ra' ∧ src = mappedL nat la') :
     QInv nat (hstep h true s.b ev) (s.agentEv true ev).1 := by
   obtain ⟨hs1, hs2, hs3, hs4, hs5, hs6, hs7, hs8, hs9⟩ := q.sess
   obtain ⟨hp1, hp2, hp3, hp4, hp5⟩ := hpost
   have hnr : resetsSelector s.b ev = false := no_reset hs2 hk (hp3.trans hs6.symm)
-  obtain ⟨hA, hB, hC⟩ := step_frame_cld s.b ev q.invB hs2 hk hs6 hp3 hp4 hs9 hplain
+  obtain ⟨hA, hB, hC⟩ := step_frame_cld s.b ev q.invB hs2 hk hs6 hp3 hp4 hs9
   -- B's part
   have hbinv : BInv nat h.issued ((acceptAt s.b ev).orElse fun _ => h.accepted) (step s.b ev).1 := by
     cases hat : acceptAt s.b ev with
@@ -26,7 +26,7 @@ theorem qinv_stepB {nat : List (Nat × Nat)} {h : Hist} {s : Sys} (q : QInv nat 
       obtain ⟨v, la, src⟩ := x
       obtain ⟨hl, hgt, _⟩ := last_of_accept hnr hat
       simp only [Option.orElse_some]
-      exact binv_accept q.binv q.invB ev hl hgt (hacc v la src hat) (hB v la src hat)
+      exact binv_accept q.binv ev hl hgt (hacc v la src hat) (hB v la src hat)
     | none =>
       have hl := last_of_no_accept hnr hat
       simp only [Option.orElse_none]
@@ -34,25 +34,25 @@ theorem qinv_stepB {nat : List (Nat × Nat)} {h : Hist} {s : Sys} (q : QInv nat 
       | some y =>
         obtain ⟨pd, id⟩ := y
         exact binv_answer q.binv q.invB ev hl (hA pd id hao)
-      | none => exact binv_quiet q.binv q.invB ev hl (hC hao hat)
-  refine ⟨(agentEv_nat s true ev).trans q.topo, q.invA, ?_, ?_, ?_, q.pendA, q.selA, q.ansA, ?_, ?_, ?_⟩
+      | none =>
+        rcases hC hao hat with hq | ⟨_, id, _, hq, hsel, hmk⟩
+        · exact binv_quiet q.binv q.invB ev hl hq
+        · exact binv_plain q.binv q.invB ev hl hq hsel hmk
+  refine ⟨(agentEv_nat s true ev).trans q.topo, q.invA, ?_, ?_, ?_, q.pendA, q.ansA, q.selA, ?_, ?_, ?_⟩
   · rw [agentEv_b_true]; exact q.invB.step ev
   · unfold Session
     rw [agentEv_a_true, agentEv_b_true]
     exact ⟨hs1, hp1, hs3, hp2, hs5, hp3, hs7, hp4, hp5⟩
-  · -- datagrams in flight: B emits neither values nor USE-CANDIDATE
+  · -- datagrams in flight: B emits no values
     intro d hd
     rw [agentEv_inflight_true] at hd
     rcases List.mem_append.mp hd with hd | hd
     · exact (q.fl d hd).mono (fun x hx => hx)
-    · intro m hm
+    · intro m hm v hv
       have hmem := mem_dgramsOf_stun hd hm
-      refine ⟨fun v hv => ?_, fun hc hu => ?_⟩
-      · obtain ⟨_, _, _, h4⟩ := step_out_nom s.b ev d.src d.dst m v hmem hv
-        have := issueOf_controlling h4
-        rw [hs6] at this; cases this
-      · have := ((IceProofs.C03.step_hsel s.b ev).out d.src d.dst m hmem hc).2 hu
-        rw [hp3] at this; cases this
+      obtain ⟨_, _, _, h4⟩ := step_out_nom s.b ev d.src d.dst m v hmem hv
+      have := issueOf_controlling h4
+      rw [hs6] at this; cases this
   · rw [agentEv_b_true, hstepB_accepted]; exact hbinv.lastB
   · rw [agentEv_b_true, hstepB_accepted, hstepB_issued]; exact hbinv.accB
   · rw [agentEv_b_true]; exact hbinv.defB
@@ -108,12 +108,6 @@ theorem acceptAt_not_inbound {a : Agent} {ev : Ev} (h : ∀ now la src m, ev ≠
   | inbound now la src m => exact absurd rfl (h now la src m)
   | _ => rfl
 
-theorem plainNomReq_not_inbound {ev : Ev} (h : ∀ now la src m, ev ≠ .inbound now la src m) :
-    plainNomReq ev = false := by
-  cases ev with
-  | inbound now la src m => exact absurd rfl (h now la src m)
-  | _ => rfl
-
 theorem session_postA {s : Sys} (h : Session s) : PostA s.a := ⟨h.1, h.2.2.1, h.2.2.2.2.1, h.2.2.2.2.2.2.1⟩
 theorem session_postB {s : Sys} (h : Session s) : PostB s.b :=
   ⟨h.2.1, h.2.2.2.1, h.2.2.2.2.2.1, h.2.2.2.2.2.2.2.1, h.2.2.2.2.2.2.2.2⟩
@@ -126,27 +120,9 @@ theorem qinv_agentEv {nat : List (Nat × Nat)} {h : Hist} {s : Sys} (q : QInv na
     (hsess : Session (s.agentEv X ev).1) (hz : ∀ x ∈ (hstep h X (s.agent X) ev).issued, 0 < x.1) :
     QInv nat (hstep h X (s.agent X) ev) (s.agentEv X ev).1 := by
   cases X with
-  | false => exact qinv_stepA q ev hk (session_postA hsess) hz
+  | false => exact qinv_stepA q ev hk (session_postA hsess)
   | true =>
-    refine qinv_stepB q ev hk (session_postB hsess) ?_ ?_
-    · rcases hadm with hni | ⟨d, hd, rfl⟩
-      · exact plainNomReq_not_inbound hni
-      · unfold evOf
-        cases hp : d.p with
-        | data n => rfl
-        | stun m =>
-          simp only [plainNomReq]
-          obtain ⟨_, h2⟩ := hd m hp
-          cases hc : m.cls == 0 with
-          | false => rfl
-          | true =>
-            cases hu : m.useCand with
-            | false => rfl
-            | true =>
-              have := h2 (by simpa using hc) hu
-              cases hn : m.nom with
-              | none => rw [hn] at this; cases this
-              | some v => rfl
+    refine qinv_stepB q ev hk (session_postB hsess) ?_
     · intro v la src hat
       rcases hadm with hni | ⟨d, hd, rfl⟩
       · rw [acceptAt_not_inbound hni] at hat; cases hat
@@ -156,8 +132,7 @@ theorem qinv_agentEv {nat : List (Nat × Nat)} {h : Hist} {s : Sys} (q : QInv na
         | stun m =>
           rw [hp] at hat
           obtain ⟨rfl, rfl, hn⟩ := acceptAt_inbound hat
-          obtain ⟨h1, _⟩ := hd m hp
-          refine ⟨d.src, d.dst, (h1 v hn).2, ?_, ?_⟩
+          refine ⟨d.src, d.dst, (hd m hp v hn).2, ?_, ?_⟩
           · rw [unmapped_eq, q.topo]
           · rw [mapped_eq, q.topo]
 /-- the invariant of the exchange fits the induction principle -/
